@@ -2,7 +2,8 @@
     [cp c] = code point 0..0x10FFFF (a superset of the scalar values); [Rep h s cs] = in heap [h]
     the string record [s] (bytes object, offset, size) represents the code-point array [cs]. *)
 From ChibiV Require Import C12.Model C12.Spec C12.Utf8Proofs C12.Proofs C12.Proofs2 C12.Proofs3 C12.Proofs4
-  C12.PortModel C12.PortProofs C12.RangeModel C12.OutProofs C12.RangeProofs C12.CmpProofs C12.LineProofs.
+  C12.PortModel C12.PortProofs C12.RangeModel C12.OutProofs C12.RangeProofs C12.CmpProofs C12.LineProofs
+  C12.PortErrProofs C12.CopyProofs C12.MapModel C12.MapProofs C12.HistModel2 C12.HistProofs2 C12.FilePortModel C12.FilePortProofs C12.CiModel C12.CiProofs.
 Local Open Scope Z_scope.
 
 Theorem utf8_roundtrip : forall c, cp c -> forall rest,
@@ -149,13 +150,13 @@ Proof. exact peek_char_spec. Qed.
 Print Assumptions peek_leaves_stream_unchanged.
 
 Theorem read_string_refines : forall n p cs, port_ok p -> Forall cp cs -> pending p = enc_all cs ->
-  exists p', read_string n p = (firstn n cs, p') /\ port_ok p' /\ pending p' = enc_all (skipn n cs).
+  exists p', read_string n p = (Ok (firstn n cs), p') /\ port_ok p' /\ pending p' = enc_all (skipn n cs).
 Proof. exact read_string_spec. Qed.
 Print Assumptions read_string_refines.
 
 Theorem port_char_roundtrip : forall cs n src sched, Forall cp cs -> (BUF_START < n)%nat -> src = enc_all cs ->
-  (exists p', read_string (length cs) (open_fd_port n src sched) = (cs, p') /\ pending p' = [] /\ port_ok p') /\
-  (exists p', read_string (length cs) (open_string_port src) = (cs, p') /\ pending p' = [] /\ port_ok p').
+  (exists p', read_string (length cs) (open_fd_port n src sched) = (Ok cs, p') /\ pending p' = [] /\ port_ok p') /\
+  (exists p', read_string (length cs) (open_string_port src) = (Ok cs, p') /\ pending p' = [] /\ port_ok p').
 Proof. exact port_read_roundtrip. Qed.
 Print Assumptions port_char_roundtrip.
 
@@ -171,8 +172,8 @@ Print Assumptions write_char_refines.
     string port or a file-descriptor port (any buffer size > 4, any schedule of read sizes) gives them back *)
 Theorem port_write_then_read_roundtrip : forall cs wn rn sched, Forall cp cs -> (1 <= wn)%nat -> (BUF_START < rn)%nat ->
   exists o, write_chars (open_output_string wn) cs = Ok o /\ out_bytes o = enc_all cs /\
-    (exists p', read_string (length cs) (open_string_port (out_bytes o)) = (cs, p') /\ pending p' = []) /\
-    (exists p', read_string (length cs) (open_fd_port rn (out_bytes o) sched) = (cs, p') /\ pending p' = []).
+    (exists p', read_string (length cs) (open_string_port (out_bytes o)) = (Ok cs, p') /\ pending p' = []) /\
+    (exists p', read_string (length cs) (open_fd_port rn (out_bytes o) sched) = (Ok cs, p') /\ pending p' = []).
 Proof. exact port_write_read_roundtrip. Qed.
 Print Assumptions port_write_then_read_roundtrip.
 
@@ -221,7 +222,7 @@ Print Assumptions string_to_utf8_with_range.
 
 (** read-line (limit n): [spec_line n cs] = (characters before the first LF / CR / CR LF, at most n; the rest) *)
 Theorem read_line_refines : forall n p cs, port_ok p -> Forall cp cs -> pending p = enc_all cs ->
-  exists p', read_line n p = (match cs with [] => None | _ => Some (fst (spec_line n cs)) end, p') /\
+  exists p', read_line n p = (Ok (match cs with [] => None | _ => Some (fst (spec_line n cs)) end), p') /\
              port_ok p' /\ pending p' = enc_all (snd (spec_line n cs)).
 Proof. exact read_line_spec. Qed.
 Print Assumptions read_line_refines.
@@ -238,3 +239,162 @@ Theorem string_cmp_is_code_point_order : forall h s1 s2 cs1 cs2, Rep h s1 cs1 ->
   (string_cmp h s1 s2 ?= 0) = lex cs1 cs2.
 Proof. exact string_cmp_refines. Qed.
 Print Assumptions string_cmp_is_code_point_order.
+
+(* ---------------------------------------------------------------- round 4 *)
+(** ILL-FORMED INPUT, the two specified outcomes (buffered ports: string / bytevector / fd / custom; every position of the
+    bytes relative to the buffer end, every schedule of read(2) answers).  A stream that ends after k bytes (0 < k < width)
+    of a multi-byte character: read-char and peek-char raise, the cut bytes are consumed, nothing is pushed back. *)
+Theorem port_truncated_sequence_is_error : forall p c k, port_ok p -> cp c -> (0 < k < width c)%nat ->
+  pending p = firstn k (encode c) ->
+  (exists p', read_char p = (RBad, p') /\ port_ok p' /\ pending p' = []) /\
+  (exists p', peek_char p = (RBad, p') /\ port_ok p' /\ pending p' = []).
+Proof. exact truncated_sequence_is_error. Qed.
+Print Assumptions port_truncated_sequence_is_error.
+
+(** a byte 0x80..0xBF or 0xF8..0xFF where a character should start: read-char and peek-char raise, exactly that byte is
+    consumed (peek-char does not push an exception back), the rest stays pending *)
+Theorem port_invalid_lead_byte_is_error : forall p b rest, port_ok p -> pending p = b :: rest ->
+  128 <= b < 192 \/ 248 <= b < 256 ->
+  (exists p', read_char p = (RBad, p') /\ port_ok p' /\ pending p' = rest) /\
+  (exists p', peek_char p = (RBad, p') /\ port_ok p' /\ pending p' = rest).
+Proof. exact invalid_lead_byte_is_error. Qed.
+Print Assumptions port_invalid_lead_byte_is_error.
+
+(** string-copy! onto ANOTHER string (different store), any optional range, every old/new width (the target's byte store is
+    re-allocated whenever a width changes): positions at..at+(e-a)-1 of the target receive characters a..e-1 of the source;
+    the source and every string in another store keep their contents.  [copy_result tcs fcs at a e] =
+    firstn at tcs ++ sub a e fcs ++ skipn (at + (e - a)) tcs *)
+Theorem string_copy_bang_other_target : forall h to from tcs fcs at_ r,
+  Rep h to tcs -> Rep h from fcs -> sbytes to <> sbytes from ->
+  let '(a, e) := range_bounds r (length fcs) in
+  0 <= a <= e -> e <= Z.of_nat (length fcs) -> 0 <= at_ -> at_ + (e - a) <= Z.of_nat (length tcs) ->
+  exists h' to', string_copy_bang h to at_ from false r = Ok (h', to') /\
+    Rep h' to' (copy_result tcs fcs (Z.to_nat at_) (Z.to_nat a) (Z.to_nat e)) /\
+    (sbytes to' = sbytes to \/ (length h <= sbytes to')%nat) /\ (length h <= length h')%nat /\
+    (forall t ct, Rep h t ct -> sbytes t <> sbytes to -> Rep h' t ct).
+Proof. exact copy_bang_other. Qed.
+Print Assumptions string_copy_bang_other_target.
+
+(** string-copy! of a string onto ITSELF, both overlap directions (at <= start: forward loop; at > start: backward loop),
+    width-changing copies included: the result is what copying from an untouched snapshot would give *)
+Theorem string_copy_bang_same_string : forall h s cs at_ r,
+  Rep h s cs ->
+  let '(a, e) := range_bounds r (length cs) in
+  0 <= a <= e -> e <= Z.of_nat (length cs) -> 0 <= at_ -> at_ + (e - a) <= Z.of_nat (length cs) ->
+  exists h' s', string_copy_bang h s at_ s true r = Ok (h', s') /\
+    Rep h' s' (copy_result cs cs (Z.to_nat at_) (Z.to_nat a) (Z.to_nat e)) /\
+    (sbytes s' = sbytes s \/ (length h <= sbytes s')%nat) /\ (length h <= length h')%nat /\
+    (forall t ct, Rep h t ct -> sbytes t <> sbytes s -> Rep h' t ct).
+Proof. exact copy_bang_same. Qed.
+Print Assumptions string_copy_bang_same_string.
+
+(** n-ary string-for-each: proc is applied to the COLUMNS of the code-point arrays, as many as the shortest string has
+    characters ([columns css]), in order; [fold_res] = left fold that stops at the first error *)
+Theorem string_for_each_nary_refines : forall (A : Type) h ss css (proc : A -> list Z -> res A) a,
+  ss <> [] -> Forall2 (Rep h) ss css ->
+  string_for_each_n h ss proc a = fold_res proc a (columns css).
+Proof. exact @string_for_each_n_refines. Qed.
+Print Assumptions string_for_each_nary_refines.
+
+(** n-ary string-map (strings of different lengths, any output buffer size): the bytes of the result are the standard
+    encoding of f applied to each column *)
+Theorem string_map_nary_refines : forall bufsize h ss css f,
+  (1 <= bufsize)%nat -> ss <> [] -> Forall2 (Rep h) ss css -> (forall args, cp (f args)) ->
+  string_map_n bufsize h ss f = Ok (enc_all (map f (columns css))).
+Proof. exact string_map_n_refines. Qed.
+Print Assumptions string_map_nary_refines.
+
+Theorem string_map_one_refines : forall bufsize h s cs f, (1 <= bufsize)%nat -> Rep h s cs -> (forall c, cp (f c)) ->
+  string_map bufsize h s f = Ok (enc_all (map f cs)).
+Proof. exact string_map_refines. Qed.
+Print Assumptions string_map_one_refines.
+
+(** THE HISTORY THEOREM, extended: the operations of round 1 plus string-join / string-concatenate with a separator
+    variable (possibly one of the joined strings), string-fill! and string-copy! with optional ranges (another variable or
+    the variable itself).  [hist_ok sp ops]: at the specification state reached so far, characters are code points and the
+    ranges of fill!/copy! are valid (with invalid ranges those two Scheme loops mutate part of the string before raising:
+    outside the claim); every other failing operation fails on both sides and leaves both states unchanged. *)
+Theorem string_ops_refine_codepoint_array_extended : forall ops st sp,
+  Inv st sp -> hist_ok sp ops -> Inv (xrun st ops) (xspec_run sp ops).
+Proof. exact xhistory_refines. Qed.
+Print Assumptions string_ops_refine_codepoint_array_extended.
+
+(** ... with write-string (optional range) to an output string port of any buffer size in the history: what has reached
+    the port is the standard encoding of the characters the specification wrote; length, bytes and string-ref of every
+    variable agree with the arrays *)
+Theorem string_and_output_history_observables : forall n ops, (1 <= n)%nat -> whist_ok wspec_init ops ->
+  let w := wrun (winit n) ops in let ws := wspec_run wspec_init ops in
+  out_bytes (wout w) = enc_all (snd ws) /\
+  length (mvars (wst w)) = length (fst ws) /\
+  forall v, (v < length (fst ws))%nat ->
+    string_length (mheap (wst w)) (var (wst w) v) = Ok (length (svar (fst ws) v)) /\
+    slice (mheap (wst w)) (var (wst w) v) = enc_all (svar (fst ws) v) /\
+    forall i, string_ref (mheap (wst w)) (var (wst w) v) i =
+              if (0 <=? i) && (i <? Z.of_nat (length (svar (fst ws) v))) then Ok (nth (Z.to_nat i) (svar (fst ws) v) 0) else Err RangeErr.
+Proof. exact whistory_observables. Qed.
+Print Assumptions string_and_output_history_observables.
+
+(** FILE* PORTS (open-input-file: getc / ungetc, no chibi buffer).  [fcap p] = how many pushed-back bytes the C library
+    accepts, [fpending p] = pushed-back bytes ++ rest of the stream.  peek-char leaves the stream unchanged PROVIDED the
+    library accepts as many pushed-back bytes as the character is wide (glibc: unbounded; ISO C guarantees one) *)
+Theorem file_port_peek_leaves_stream_unchanged : forall p c rest, cp c -> fpending p = encode c ++ rest ->
+  (Nat.max (length (fpush p)) (width c) <= fcap p)%nat ->
+  exists p', fpeek_char p = (RChar c, p') /\ fpending p' = fpending p /\ fcap p' = fcap p /\
+             length (fpush p') = Nat.max (length (fpush p)) (width c).
+Proof. exact fpeek_char_spec. Qed.
+Print Assumptions file_port_peek_leaves_stream_unchanged.
+
+Theorem file_port_read_string_refines : forall n p cs, fport_ok p -> Forall cp cs -> fpending p = enc_all cs ->
+  exists p', fread_string n p = (Ok (firstn n cs), p') /\ fport_ok p' /\ fpending p' = enc_all (skipn n cs).
+Proof. exact fread_string_spec. Qed.
+Print Assumptions file_port_read_string_refines.
+
+Theorem file_port_ill_formed_input_is_error :
+  (forall p c k, cp c -> (0 < k < width c)%nat -> fpending p = firstn k (encode c) ->
+     (exists p', fread_char p = (RBad, p') /\ fpending p' = []) /\ (exists p', fpeek_char p = (RBad, p') /\ fpending p' = [])) /\
+  (forall p b rest, fpending p = b :: rest -> 128 <= b < 192 \/ 248 <= b < 256 ->
+     (exists p', fread_char p = (RBad, p') /\ fpending p' = rest) /\ (exists p', fpeek_char p = (RBad, p') /\ fpending p' = rest)).
+Proof. split; [exact ftruncated_sequence_is_error|exact finvalid_lead_byte_is_error]. Qed.
+Print Assumptions file_port_ill_formed_input_is_error.
+
+(** the portable-C defect, as a refutation of "peek-char is transparent on every conforming C library": with the ONE byte of
+    pushback ISO C guarantees, peek-char of any non-ASCII character keeps only its last byte; the next read-char raises *)
+Theorem file_port_peek_with_one_byte_pushback_refuted : forall p c rest, cp c -> 128 <= c ->
+  fpush p = [] -> fcap p = 1%nat -> fsrc p = encode c ++ rest ->
+  exists p', fpeek_char p = (RChar c, p') /\ fpending p' = ((128 + c mod 64) :: rest) /\
+             fpending p' <> fpending p /\
+             exists p'', fread_char p' = (RBad, p'') /\ fpending p'' = rest.
+Proof. exact fpeek_one_byte_pushback_loses. Qed.
+Print Assumptions file_port_peek_with_one_byte_pushback_refuted.
+
+(** CASE-INSENSITIVE COMPARISON.  chibi has two implementations.
+    (A) the core (chibi) string-ci=? ... = (string-cmp a b #t) = the C loop over tolower'ed BYTES in the "C" locale: it folds
+    the ASCII letters only ([ascii_fold]), every multi-byte character compares as itself. *)
+Theorem core_string_ci_folds_ascii_letters_only : forall h s1 s2 cs1 cs2, Rep h s1 cs1 -> Rep h s2 cs2 ->
+  (string_cmp_ci h s1 s2 ?= 0) = lex (map ascii_fold cs1) (map ascii_fold cs2).
+Proof. exact string_cmp_ci_refines. Qed.
+Print Assumptions core_string_ci_folds_ascii_letters_only.
+
+(** (B) (scheme char) string-ci=? ... compare (string-foldcase a) with (string-foldcase b).  The tables are REGENERATED from
+    lib/scheme/char/case-offsets.scm (char-foldcase-map) and special-casing.scm on every run (coq/Gen/C12_CaseFold.v); the two
+    binary searches of full.scm are proved to be plain table lookups ([assoc] = first match), for every key and every non-key *)
+Theorem char_foldcase_is_table_lookup :
+  (forall c, char_foldcase c = match assoc c foldcase_map with Some v => v | None => c end) /\
+  (forall c, special_case_fold c = assoc c special_fold).
+Proof. split; [exact char_foldcase_spec|exact special_case_fold_spec]. Qed.
+Print Assumptions char_foldcase_is_table_lookup.
+
+(** string-foldcase (read-char from a string port, write-char / write-string to a string port of any buffer size) gives the
+    standard encoding of the folded code points, multi-byte cased characters and one-to-many foldings (ß -> ss) included *)
+Theorem string_foldcase_refines_fold_of_code_points : forall bufsize h s cs, Rep h s cs -> (1 <= bufsize)%nat ->
+  string_foldcase bufsize h s = Ok (enc_all (string_foldcase_cps cs)).
+Proof. exact string_foldcase_refines. Qed.
+Print Assumptions string_foldcase_refines_fold_of_code_points.
+
+(** hence the (scheme char) comparison = lexicographic comparison (in particular equality) of the FOLDED code-point lists *)
+Theorem string_ci_refines_comparison_of_folded_code_points : forall bufsize h s1 s2 cs1 cs2,
+  Rep h s1 cs1 -> Rep h s2 cs2 -> (1 <= bufsize)%nat ->
+  exists z, string_ci_cmp_full bufsize h s1 s2 = Ok z /\
+            (z ?= 0) = lex (string_foldcase_cps cs1) (string_foldcase_cps cs2).
+Proof. exact string_ci_full_refines. Qed.
+Print Assumptions string_ci_refines_comparison_of_folded_code_points.
